@@ -17,6 +17,10 @@ def std_call(n, env, rec):
     fn = norm(n.func)
     if fn == 'len' and len(n.args) == 1:
         return len(rec(n.args[0]))
+    if fn in ('sorted', 'tuple', 'list', 'reversed', 'set', 'frozenset') and len(n.args) == 1 and not n.keywords:
+        v = rec(n.args[0])
+        return {'sorted': lambda x: sorted(x), 'tuple': tuple, 'list': lambda x: tuple(x), 'reversed': lambda x: tuple(reversed(tuple(x))),
+                'set': set, 'frozenset': frozenset}[fn](v) if fn != 'sorted' else tuple(sorted(v))
     if fn in ('int', 'abs', 'max', 'min', 'bool') and n.args:
         return {'int': int, 'abs': abs, 'max': max, 'min': min, 'bool': bool}[fn](*[rec(a) for a in n.args])
     if fn == 'isinstance':
@@ -59,7 +63,15 @@ def reached(fn, env, kinds=(ast.Assign, ast.AugAssign, ast.Return, ast.Raise, as
     """Statements of fn whose path conditions hold under env.  With strict=True statements whose
     conditions cannot be decided are dropped; otherwise they are returned with flag None."""
     out = []
+    env = dict(env)
     for st, ctx in walk(fn.node):
+        # a straight-line rebinding of an input name (e.g. qubits = tuple(sorted(qubits))) changes what later guards see
+        if isinstance(st, ast.Assign) and len(st.targets) == 1 and isinstance(st.targets[0], ast.Name) and st.targets[0].id in env \
+                and not ctx.loops and holds(ctx.conds, env, sub, call, attr) is True:
+            try:
+                env[st.targets[0].id] = ev(st.value, env, sub=sub, call=call, attr=attr)
+            except Undecidable:
+                env.pop(st.targets[0].id, None)     # later guards on this name become undecidable
         if not isinstance(st, kinds):
             continue
         h = holds(ctx.conds, env, sub, call, attr)
